@@ -29,6 +29,10 @@ def tyFlags (ty : String) : Nat × TyFlags :=
   if ty.startsWith "c" then ((ty.drop 1).toString.toNat!,
     { trivCopyCtor := false, trivMoveCtor := false, trivDtor := false, trivCopyAssign := true,
       trivMoveAssign := true, trivSwap := false, eqMemcmp := false, lexMemcmp := false }) else
+  -- user-provided assignment, trivial construction and destruction
+  if ty.startsWith "a" then ((ty.drop 1).toString.toNat!,
+    { trivCopyCtor := true, trivMoveCtor := true, trivDtor := true, trivCopyAssign := false,
+      trivMoveAssign := false, trivSwap := false, eqMemcmp := false, lexMemcmp := false }) else
   (0, {})
 
 def parseParam (s : String) : Param :=
